@@ -496,37 +496,40 @@ theorem view_pos_bound (cells : List Cell) (s : Nat) (hb : PosBound cells) :
   obtain ⟨c, hc, rfl⟩ := List.mem_map.mp hx
   exact hb c (List.mem_filter.mp hc).1
 
-theorem remove_other (cs : Bool) (cells : List Cell) (s t : Nat) (h : t ≠ s) (b e : Int) :
-    view (remove cs cells s b e).1 t = view cells t := by
+/-- the cells `Remove` leaves: those of its cell loop, RoPE-shifted only on the full success path -/
+theorem remove_fst (cs : Bool) (cells : List Cell) (s : Nat) (b e : Int) :
+    (remove cs cells s b e).1 = (removeGo s b e (if e = maxI32 then 0 else b - e) cells).1 ∨
+    ((removeGo s b e (if e = maxI32 then 0 else b - e) cells).2 = false ∧
+      (remove cs cells s b e).1 =
+        (removeGo s b e (if e = maxI32 then 0 else b - e) cells).1.map (ropeCell s b (if e = maxI32 then 0 else b - e))) := by
   unfold remove
   simp only
-  split
-  · exact removeGo_other s t h ..
-  · next hok =>
-    split
-    · exact removeGo_other s t h ..
-    · split
-      · exact removeGo_other s t h ..
-      · split
-        · exact removeGo_other s t h ..
-        · rw [rope_view_other s t h _ _ _ (removeGo_exclusive s b e _ cells (by simpa using hok))]
-          exact removeGo_other s t h ..
+  generalize (if e = maxI32 then (0 : Int) else b - e) = off
+  generalize removeGo s b e off cells = r
+  by_cases h1 : r.2 = true
+  · left; simp [h1]
+  · by_cases h2 : (!(r.1.any (·.has s))) = true
+    · left; simp [h1, h2]
+    · by_cases h3 : e = maxI32
+      · left; simp [h1, h2, h3]
+      · by_cases h4 : (!cs) = true
+        · left; simp [h1, h2, h3, h4]
+        · right; simp [h1, h2, h3, h4]
+
+theorem remove_other (cs : Bool) (cells : List Cell) (s t : Nat) (h : t ≠ s) (b e : Int) :
+    view (remove cs cells s b e).1 t = view cells t := by
+  rcases remove_fst cs cells s b e with h1 | ⟨hok, h1⟩
+  · rw [h1]; exact removeGo_other s t h ..
+  · rw [h1, rope_view_other s t h _ _ _ (removeGo_exclusive s b e _ cells hok)]
+    exact removeGo_other s t h ..
 
 theorem remove_bound (cs : Bool) (cells : List Cell) (s : Nat) (b e : Int) (hb : PosBound cells)
     (h0 : 0 ≤ b) (hbe : b ≤ e) : PosBound (remove cs cells s b e).1 := by
   have hg : PosBound (removeGo s b e (if e = maxI32 then 0 else b - e) cells).1 := by
     apply removeGo_bound _ _ _ _ _ _ _ hb <;> split <;> omega
-  unfold remove
-  simp only
-  split
-  · exact hg
-  · split
-    · exact hg
-    · split
-      · exact hg
-      · split
-        · exact hg
-        · exact rope_bound _ _ _ _ hg
+  rcases remove_fst cs cells s b e with h1 | ⟨_, h1⟩
+  · rw [h1]; exact hg
+  · rw [h1]; exact rope_bound _ _ _ _ hg
 
 /-- `Remove(s, b, MaxInt32)`: never fails on bounded cells and cuts the view at `b` -/
 theorem remove_clear (cs : Bool) (cells : List Cell) (s : Nat) (b : Int) (hb : PosBound cells) :
@@ -543,34 +546,34 @@ theorem remove_clear (cs : Bool) (cells : List Cell) (s : Nat) (b : Int) (hb : P
 theorem remove_shift_self (cells : List Cell) (s : Nat) (b e : Int) (hbe : b ≤ e) (he : e ≠ maxI32)
     (hok : (remove true cells s b e).2 = none) :
     view (remove true cells s b e).1 s = (view cells s).filterMap (shiftEntry b e (b - e)) := by
+  have hpt : ∀ x : Int × Tok × Int, (shiftMeta b e (b - e) x).map (ropeEntry b (b - e)) = shiftEntry b e (b - e) x := by
+    intro x
+    unfold shiftMeta shiftEntry ropeEntry
+    by_cases h1 : b ≤ x.1 ∧ x.1 < e
+    · simp [h1]
+    · by_cases h2 : e ≤ x.1
+      · have : b ≤ x.1 + (b - e) := by omega
+        simp [h1, h2, this]
+      · have : ¬ b ≤ x.1 := by omega
+        simp [h1, h2, this]
   unfold remove at hok ⊢
   simp only [he, if_false] at hok ⊢
-  split at hok
-  · cases hok
-  · next hgo =>
-    have hgo' : (removeGo s b e (b - e) cells).2 = false := by simpa using hgo
+  generalize hr : removeGo s b e (b - e) cells = r at hok ⊢
+  by_cases h1 : r.2 = true
+  · simp [h1] at hok
+  · have hgo' : (removeGo s b e (b - e) cells).2 = false := by rw [hr]; simpa using h1
     have hself := removeGo_self s b e (b - e) cells hgo'
-    simp only [hgo, if_false]
-    have hpt : ∀ x : Int × Tok × Int, (shiftMeta b e (b - e) x).map (ropeEntry b (b - e)) = shiftEntry b e (b - e) x := by
-      intro x
-      unfold shiftMeta shiftEntry ropeEntry
-      by_cases h1 : b ≤ x.1 ∧ x.1 < e
-      · simp [h1]
-      · by_cases h2 : e ≤ x.1
-        · have : b ≤ x.1 + (b - e) := by omega
-          simp [h1, h2, this]
-        · have : ¬ b ≤ x.1 := by omega
-          simp [h1, h2, this]
-    split
-    · next hany =>
-      -- no cell of `s` is left
-      have hnil : view (removeGo s b e (b - e) cells).1 s = [] := by
+    rw [hr] at hself
+    by_cases h2 : (!(r.1.any (·.has s))) = true
+    · have hr1 : r.2 = false := by simpa using h1
+      simp only [hr1, Bool.false_eq_true, if_false, h2, if_true]
+      have hnil : view r.1 s = [] := by
         unfold view
-        have : (removeGo s b e (b - e) cells).1.filter (·.has s) = [] := by
+        have : r.1.filter (·.has s) = [] := by
           apply List.filter_eq_nil_iff.mpr
           intro c hc hcs
-          have : (removeGo s b e (b - e) cells).1.any (·.has s) = true := List.any_eq_true.mpr ⟨c, hc, hcs⟩
-          simp [this] at hany
+          have : r.1.any (·.has s) = true := List.any_eq_true.mpr ⟨c, hc, hcs⟩
+          simp [this] at h2
         simp [this]
       rw [hnil]
       rw [hself] at hnil
@@ -580,10 +583,11 @@ theorem remove_shift_self (cells : List Cell) (s : Nat) (b e : Int) (hbe : b ≤
       intro x hx
       have := hall x hx
       rw [← hpt x, this]; rfl
-    · simp only [Bool.not_true, Bool.false_eq_true, if_false]
+    · have hr1 : r.2 = false := by simpa using h1
+      simp only [hr1, if_false, h2, Bool.not_true, Bool.false_eq_true]
       rw [rope_view_self, hself, List.map_filterMap]
-      apply List.filterMap_congr
-      intro x _
+      congr 1
+      funext x
       exact hpt x
 
 /-! ## slot selection folds -/
